@@ -18,7 +18,9 @@ Definition fragmentation (c : cnt) : binary64 :=
   if dead c =? 0 then f64_of_N 0
   else f64_div (f64_of_N (dead c)) (f64_add (f64_of_N (dead c)) (f64_of_N (live c))).
 
-Inductive policy := PAlways | PNever.
+(* [PWindow a z h]: the window policy with hours a..z (inclusive, as the code compares), evaluated at local hour h:
+   the hour is an input (chrono::Local::now()), like the clock of the engine *)
+Inductive policy := PAlways | PNever | PWindow (a z h : N).
 Record triggers := mkTrig { t_frag_num : N; t_frag_den : N; t_dead : N }.
 
 Definition file_triggers (t : triggers) (c : cnt) : bool :=
@@ -28,7 +30,20 @@ Definition can_merge (p : policy) (t : triggers) (s : st) : bool :=
   match p with
   | PNever => false
   | PAlways => existsb (fun f => file_triggers t (sget0 (s_stats s) f)) (stat_ids (s_stats s))
+  | PWindow a z h =>
+    if (h <? a) || (z <? h) then false
+    else existsb (fun f => file_triggers t (sget0 (s_stats s) f)) (stat_ids (s_stats s))
   end.
+
+(* inside its hours the window policy is `always`, outside it is `never` *)
+Lemma window_inside a z h t s : a <= h <= z -> can_merge (PWindow a z h) t s = can_merge PAlways t s.
+Proof.
+  intros [H1 H2]. unfold can_merge. destruct (N.ltb_spec h a); [lia|]. destruct (N.ltb_spec z h); [lia|]. reflexivity.
+Qed.
+Lemma window_outside a z h t s : h < a \/ z < h -> can_merge (PWindow a z h) t s = false.
+Proof.
+  intros H. unfold can_merge. destruct (N.ltb_spec h a); [reflexivity|]. destruct (N.ltb_spec z h); [reflexivity|lia].
+Qed.
 
 (* the rational reading of the same comparison, for counters and thresholds small enough *)
 Definition frag_gt_Q (c : cnt) (num den : N) : bool :=
